@@ -32,111 +32,132 @@ theorem TotalPureEs.atoms : ∀ {vs : List Expr}, (∀ e ∈ vs, e.isAtom = true
 
 /-! ### statement-list plumbing -/
 
-theorem HR.ssPrefix {D D' : List String} {xs ys : List Stmt} : ∀ (pre : List Stmt), NoRefSs D pre →
+theorem HR.ssPrefix {D D' : List DName} {xs ys : List Stmt} : ∀ (pre : List Stmt), NoRefSs D pre →
     HR cx D (.ss xs) (.ss ys) D' → HR cx D (.ss (pre ++ xs)) (.ss (pre ++ ys)) D'
   | [], _, h => h
   | s :: pre, hn, h =>
     .ssCons (.reflS (NoRefSs.cons.mp hn).1) (HR.ssPrefix pre (NoRefSs.cons.mp hn).2 h)
 
-theorem NoRefSs.append {D : List String} {xs ys : List Stmt} : NoRefSs D (xs ++ ys) ↔ NoRefSs D xs ∧ NoRefSs D ys := by
+theorem NoRefSs.append {D : List DName} {xs ys : List Stmt} : NoRefSs D (xs ++ ys) ↔ NoRefSs D xs ∧ NoRefSs D ys := by
   induction xs with
   | nil => simp [NoRefSs, Stmt.refsList]
   | cons x xs ih =>
     rw [List.cons_append, NoRefSs.cons, NoRefSs.cons, ih, and_assoc]
 
-theorem NoRefSs.consName {D : List String} {ns : List String} {xs : List Stmt} (h : NoRefSs D xs)
-    (hx : ∀ n ∈ ns, Stmt.refsList n xs = false) : NoRefSs (ns ++ D) xs := by
-  intro n hn
-  rcases List.mem_append.mp hn with h1 | h1
-  · exact hx n h1
-  · exact h n h1
+theorem mem_refNames {ns : List TName} {x : DName} (h : x ∈ refNames ns) : ∃ n ∈ ns.map TName.name, x = .ref n := by
+  obtain ⟨n, hn, rfl⟩ := List.mem_map.mp h
+  exact ⟨n, hn, rfl⟩
 
-theorem NoRefL.consName {D : List String} {ns : List String} {l : Last} (h : NoRefL D l)
-    (hx : ∀ n ∈ ns, l.refs n = false) : NoRefL (ns ++ D) l := by
-  intro n hn
-  rcases List.mem_append.mp hn with h1 | h1
-  · exact hx n h1
-  · exact h n h1
+theorem NoRefSs.consName {D : List DName} {ns : List TName} {xs : List Stmt} (h : NoRefSs D xs)
+    (hx : ∀ n ∈ ns.map TName.name, Stmt.refsList (.ref n) xs = false) : NoRefSs (refNames ns ++ D) xs := by
+  intro x hm
+  rcases List.mem_append.mp hm with h1 | h1
+  · obtain ⟨n, hn, rfl⟩ := mem_refNames h1; exact hx n hn
+  · exact h x h1
 
-theorem NoRefE.consName {D : List String} {ns : List String} {e : Expr} (h : NoRefE D e)
-    (hx : ∀ n ∈ ns, e.refs n = false) : NoRefE (ns ++ D) e := by
-  intro n hn
-  rcases List.mem_append.mp hn with h1 | h1
-  · exact hx n h1
-  · exact h n h1
+theorem NoRefL.consName {D : List DName} {ns : List TName} {l : Last} (h : NoRefL D l)
+    (hx : ∀ n ∈ ns.map TName.name, l.refs (.ref n) = false) : NoRefL (refNames ns ++ D) l := by
+  intro x hm
+  rcases List.mem_append.mp hm with h1 | h1
+  · obtain ⟨n, hn, rfl⟩ := mem_refNames h1; exact hx n hn
+  · exact h x h1
 
-/-- the tail of a block (statements after the dropped declaration, and the last statement) -/
+theorem NoRefE.consName {D : List DName} {ns : List TName} {e : Expr} (h : NoRefE D e)
+    (hx : ∀ n ∈ ns.map TName.name, e.refs (.ref n) = false) : NoRefE (refNames ns ++ D) e := by
+  intro x hm
+  rcases List.mem_append.mp hm with h1 | h1
+  · obtain ⟨n, hn, rfl⟩ := mem_refNames h1; exact hx n hn
+  · exact h x h1
+
+/-- is `n` referenced in the tail of a block (statements after a declaration, and the last statement)? -/
 def tailRefs (n : String) (rest : List Stmt) (last : Option Last) : Bool :=
-  Stmt.refsList n rest || (match last with | none => false | some l => l.refs n)
+  Stmt.refsList (.ref n) rest || (match last with | none => false | some l => l.refs (.ref n))
 
-/-- **Step (1)/(3).** In a closed block, a `local ns = vs` whose values are total and pure, and whose
-names are not referenced in the rest of the block, can be dropped (`LkB.dropLocal`) or — read from
-right to left — introduced (`LkB.addLocal`). -/
+/-- **Step (1).** In a closed block, a `local ns = vs` whose values are total and pure and whose names
+are not referenced in the rest of the block can be dropped. -/
 theorem LkB.dropLocal {pre rest : List Stmt} {last : Option Last} {kind : LocalKind} {ns : List TName}
     {vs : List Expr} (hp : TotalPureEs vs) (hx : ∀ n ∈ ns.map TName.name, tailRefs n rest last = false) :
     (LkB cx) (.mk (pre ++ .localAssign kind ns vs :: rest) last) (.mk (pre ++ rest) last) := by
-  intro D hn
-  have hx1 : ∀ n ∈ ns.map TName.name, Stmt.refsList n rest = false := fun n h => by
+  intro D _ hn
+  have hx1 : ∀ n ∈ ns.map TName.name, Stmt.refsList (.ref n) rest = false := fun n h => by
     have := hx n h; simp only [tailRefs, Bool.or_eq_false_iff] at this; exact this.1
   cases last with
   | none =>
     have h1 := NoRefSs.append.mp (NoRefB.none.mp hn)
     have h2 := NoRefSs.cons.mp h1.2
-    exact ⟨⟨_, .blockNone (.ssPrefix pre h1.1 (.dropLocal hp (.reflSs (NoRefSs.consName h2.2 hx1))))⟩,
+    have hw := NoWat.names (NoRefS.localAssign.mp h2.1).1
+    exact ⟨⟨_, .blockNone (.ssPrefix pre h1.1 (.dropLocal hp hw (.reflSs (NoRefSs.consName h2.2 hx1))))⟩,
       NoRefB.none.mpr (NoRefSs.append.mpr ⟨h1.1, h2.2⟩)⟩
   | some l =>
     have h0 := NoRefB.some.mp hn
     have h1 := NoRefSs.append.mp h0.1
     have h2 := NoRefSs.cons.mp h1.2
-    have hx2 : ∀ n ∈ ns.map TName.name, l.refs n = false := fun n h => by
+    have hw := NoWat.names (NoRefS.localAssign.mp h2.1).1
+    have hx2 : ∀ n ∈ ns.map TName.name, l.refs (.ref n) = false := fun n h => by
       have := hx n h; simp only [tailRefs, Bool.or_eq_false_iff] at this; exact this.2
-    exact ⟨⟨_, .blockSome (.ssPrefix pre h1.1 (.dropLocal hp (.reflSs (NoRefSs.consName h2.2 hx1))))
+    exact ⟨⟨_, .blockSome (.ssPrefix pre h1.1 (.dropLocal hp hw (.reflSs (NoRefSs.consName h2.2 hx1))))
         (.reflL (NoRefL.consName h0.2 hx2))⟩,
       NoRefB.some.mpr ⟨NoRefSs.append.mpr ⟨h1.1, h2.2⟩, h0.2⟩⟩
 
+/-- **Step (3).** In a closed block, a `local ns = vs` with total, pure, closed values (`hvs`: they
+reference nothing a dead set may contain — literals) whose names are fresh (not referenced in the rest
+of the block, not watched) can be introduced. -/
 theorem LkB.addLocal {pre rest : List Stmt} {last : Option Last} {kind : LocalKind} {ns : List TName}
     {vs : List Expr} (hp : TotalPureEs vs) (hvs : ∀ D, NoRefEs D vs)
+    (hfresh : ∀ n ∈ ns.map TName.name, n ∉ cx.W)
     (hx : ∀ n ∈ ns.map TName.name, tailRefs n rest last = false) :
     (LkB cx) (.mk (pre ++ rest) last) (.mk (pre ++ .localAssign kind ns vs :: rest) last) := by
-  intro D hn
-  have hx1 : ∀ n ∈ ns.map TName.name, Stmt.refsList n rest = false := fun n h => by
+  intro D hd hn
+  have hx1 : ∀ n ∈ ns.map TName.name, Stmt.refsList (.ref n) rest = false := fun n h => by
     have := hx n h; simp only [tailRefs, Bool.or_eq_false_iff] at this; exact this.1
+  have hw : ∀ n ∈ ns.map TName.name, DName.wat n ∉ D := fun n h hm => hfresh n h (hd n hm)
+  have hnw : NoWat D ns := by
+    clear hx hx1 hp
+    induction ns with
+    | nil => intro _ _; rfl
+    | cons t ts ih =>
+      obtain ⟨m, ty⟩ := t
+      exact NoWat.cons.mpr ⟨hw m (by simp [TName.name]), ih (fun n h => hfresh n (by simp [h]))
+        (fun n h => hw n (by simp [h]))⟩
   cases last with
   | none =>
     have h1 := NoRefSs.append.mp (NoRefB.none.mp hn)
-    exact ⟨⟨_, .blockNone (.ssPrefix pre h1.1 (.addLocal hp (.reflSs (NoRefSs.consName h1.2 hx1))))⟩,
-      NoRefB.none.mpr (NoRefSs.append.mpr ⟨h1.1, NoRefSs.cons.mpr ⟨NoRefS.localAssign.mpr (hvs D), h1.2⟩⟩)⟩
+    exact ⟨⟨_, .blockNone (.ssPrefix pre h1.1 (.addLocal hp hw (.reflSs (NoRefSs.consName h1.2 hx1))))⟩,
+      NoRefB.none.mpr (NoRefSs.append.mpr ⟨h1.1, NoRefSs.cons.mpr ⟨NoRefS.localAssign.mpr ⟨hnw, hvs D⟩, h1.2⟩⟩)⟩
   | some l =>
     have h0 := NoRefB.some.mp hn
     have h1 := NoRefSs.append.mp h0.1
-    have hx2 : ∀ n ∈ ns.map TName.name, l.refs n = false := fun n h => by
+    have hx2 : ∀ n ∈ ns.map TName.name, l.refs (.ref n) = false := fun n h => by
       have := hx n h; simp only [tailRefs, Bool.or_eq_false_iff] at this; exact this.2
-    exact ⟨⟨_, .blockSome (.ssPrefix pre h1.1 (.addLocal hp (.reflSs (NoRefSs.consName h1.2 hx1))))
+    exact ⟨⟨_, .blockSome (.ssPrefix pre h1.1 (.addLocal hp hw (.reflSs (NoRefSs.consName h1.2 hx1))))
         (.reflL (NoRefL.consName h0.2 hx2))⟩,
-      NoRefB.some.mpr ⟨NoRefSs.append.mpr ⟨h1.1, NoRefSs.cons.mpr ⟨NoRefS.localAssign.mpr (hvs D), h1.2⟩⟩, h0.2⟩⟩
+      NoRefB.some.mpr ⟨NoRefSs.append.mpr ⟨h1.1, NoRefSs.cons.mpr ⟨NoRefS.localAssign.mpr ⟨hnw, hvs D⟩, h1.2⟩⟩, h0.2⟩⟩
 
 /-- the same inside a `repeat` body: the `until` condition must not reference the names either -/
 theorem LkRep.dropLocal {pre rest : List Stmt} {last : Option Last} {kind : LocalKind} {ns : List TName}
     {vs : List Expr} {c : Expr} (hp : TotalPureEs vs)
-    (hx : ∀ n ∈ ns.map TName.name, tailRefs n rest last = false) (hc : ∀ n ∈ ns.map TName.name, c.refs n = false) :
+    (hx : ∀ n ∈ ns.map TName.name, tailRefs n rest last = false)
+    (hc : ∀ n ∈ ns.map TName.name, c.refs (.ref n) = false) :
     (LkRep cx) (.mk (pre ++ .localAssign kind ns vs :: rest) last, c) (.mk (pre ++ rest) last, c) := by
-  intro D hnb hnc
-  have hx1 : ∀ n ∈ ns.map TName.name, Stmt.refsList n rest = false := fun n h => by
+  intro D _ hnb hnc
+  have hx1 : ∀ n ∈ ns.map TName.name, Stmt.refsList (.ref n) rest = false := fun n h => by
     have := hx n h; simp only [tailRefs, Bool.or_eq_false_iff] at this; exact this.1
   cases last with
   | none =>
     have h1 := NoRefSs.append.mp (NoRefB.none.mp hnb)
     have h2 := NoRefSs.cons.mp h1.2
-    exact ⟨.rep (.blockNone (.ssPrefix pre h1.1 (.dropLocal hp (.reflSs (NoRefSs.consName h2.2 hx1)))))
+    have hw := NoWat.names (NoRefS.localAssign.mp h2.1).1
+    exact ⟨.rep (.blockNone (.ssPrefix pre h1.1 (.dropLocal hp hw (.reflSs (NoRefSs.consName h2.2 hx1)))))
         (.reflE (NoRefE.consName hnc hc)),
       NoRefB.none.mpr (NoRefSs.append.mpr ⟨h1.1, h2.2⟩), hnc⟩
   | some l =>
     have h0 := NoRefB.some.mp hnb
     have h1 := NoRefSs.append.mp h0.1
     have h2 := NoRefSs.cons.mp h1.2
-    have hx2 : ∀ n ∈ ns.map TName.name, l.refs n = false := fun n h => by
+    have hw := NoWat.names (NoRefS.localAssign.mp h2.1).1
+    have hx2 : ∀ n ∈ ns.map TName.name, l.refs (.ref n) = false := fun n h => by
       have := hx n h; simp only [tailRefs, Bool.or_eq_false_iff] at this; exact this.2
-    exact ⟨.rep (.blockSome (.ssPrefix pre h1.1 (.dropLocal hp (.reflSs (NoRefSs.consName h2.2 hx1))))
+    exact ⟨.rep (.blockSome (.ssPrefix pre h1.1 (.dropLocal hp hw (.reflSs (NoRefSs.consName h2.2 hx1))))
           (.reflL (NoRefL.consName h0.2 hx2))) (.reflE (NoRefE.consName hnc hc)),
       NoRefB.some.mpr ⟨NoRefSs.append.mpr ⟨h1.1, h2.2⟩, h0.2⟩, hnc⟩
 
@@ -146,21 +167,32 @@ of the variables (hence of the cells). -/
 theorem LkS.permLocal {kind kind' : LocalKind} {ns ns' : List TName} {vs vs' : List Expr}
     (heq : LocalEquiv (ns.map TName.name) vs (ns'.map TName.name) vs')
     (hnr : ∀ D, NoRefEs D vs → NoRefEs D vs') :
-    (LkS cx) (.localAssign kind ns vs) (.localAssign kind' ns' vs') := fun D hn =>
-  ⟨.genS fun _ hq => permLocal_sound heq (Heap.reflEs hq vs D (NoRefS.localAssign.mp hn)),
-    NoRefS.localAssign.mpr (hnr D (NoRefS.localAssign.mp hn))⟩
+    (LkS cx) (.localAssign kind ns vs) (.localAssign kind' ns' vs') := fun D _ hn => by
+  have hh := NoRefS.localAssign.mp hn
+  have hw := NoWat.names hh.1
+  have hw' : ∀ n ∈ ns'.map TName.name, DName.wat n ∉ D := fun n h => hw n ((heq.2.2.1 n).mpr h)
+  have hnw' : NoWat D ns' := by
+    clear heq hnr hh hn
+    induction ns' with
+    | nil => intro _ _; rfl
+    | cons t ts ih =>
+      obtain ⟨m, ty⟩ := t
+      exact NoWat.cons.mpr ⟨hw' m (by simp [TName.name]), ih (fun n h => hw' n (by simp [h]))⟩
+  exact ⟨.genS fun _ hq => permLocal_sound heq hw (Heap.reflEs hq vs D hh.2),
+    NoRefS.localAssign.mpr ⟨hnw', hnr D hh.2⟩⟩
 
 /-- `local function f … end` ⇝ `local f = function … end` when the body does not reference `f`
 (`convert_local_function_to_assign`): the closure environments differ by the binding of `f` only. -/
 theorem LkS.localFnToAssign {kind kind' : LocalKind} {name : String} {ty : Option Ty} {f : FnBody}
-    (hname : f.refs name = false) :
-    (LkS cx) (.localFn kind name f) (.localAssign kind' [.mk name ty] [.fn f]) := fun D hn => by
-  have hf : NoRefF D f := NoRefS.localFn.mp hn
-  refine ⟨.genS fun _ hq => localFn_to_assign_sound hq ?_, ?_⟩
+    (hname : f.refs (.ref name) = false) :
+    (LkS cx) (.localFn kind name f) (.localAssign kind' [.mk name ty] [.fn f]) := fun D _ hn => by
+  have hn' := NoRefS.localFn.mp hn
+  refine ⟨.genS fun _ hq => localFn_to_assign_sound hq hn'.1 ?_, ?_⟩
   · intro x hx
     cases hx with
     | head => exact hname
-    | tail _ hx => exact hf x hx
-  · exact NoRefS.localAssign.mpr (NoRefEs.cons.mpr ⟨NoRefE.fn.mpr hf, fun _ _ => rfl⟩)
+    | tail _ hx => exact hn'.2 x hx
+  · exact NoRefS.localAssign.mpr ⟨NoWat.cons.mpr ⟨hn'.1, fun _ _ => rfl⟩,
+      NoRefEs.cons.mpr ⟨NoRefE.fn.mpr hn'.2, fun _ _ => rfl⟩⟩
 
 end DarkluaModel.Sem.Heap
